@@ -404,7 +404,11 @@ def _validate_resource_match(
 
     materialized_without_last_applied = _strip_last_applied_annotation(materialized)
 
-    match = _validate_match(target=expected, actual=materialized_without_last_applied)
+    # An empty `metadata.annotations` in the expectation is the same as none.
+    match = _validate_match(
+        target=_strip_last_applied_annotation(expected),
+        actual=materialized_without_last_applied,
+    )
     return TestCaseResult(
         test_pass=match.match,
         expected_outcome=result.Ok(expected),
@@ -528,24 +532,24 @@ class ResourceMatch(NamedTuple):
 
 
 def _strip_last_applied_annotation[T](actual: T) -> T:
+    """Drop the last-applied annotation, and the annotations map if that
+    leaves it empty (it may only have been created to hold the annotation).
+    """
     if not actual or not isinstance(actual, dict):
         return actual
 
-    if "metadata" not in actual:
+    metadata = actual.get("metadata")
+    if not isinstance(metadata, dict):
         return actual
 
-    if "annotations" not in actual["metadata"]:
-        return actual
-
-    annotation_count = len(actual["metadata"]["annotations"])
-    if annotation_count == 0:
+    annotations = metadata.get("annotations")
+    if not isinstance(annotations, dict):
         return actual
 
     stripped = copy.deepcopy(actual)
-    if annotation_count == 1:
+    stripped["metadata"]["annotations"].pop(LAST_APPLIED_ANNOTATION, None)
+    if not stripped["metadata"]["annotations"]:
         del stripped["metadata"]["annotations"]
-    else:
-        del stripped["metadata"]["annotations"][LAST_APPLIED_ANNOTATION]
 
     return stripped
 
